@@ -244,7 +244,12 @@ func (e *env) ctlOps(rounds int) {
 				if st.sawFilter != isVF {
 					r.Fail("", fmt.Sprintf("ctl: %s: store was asked VersionFiltering=%v, matcher implements VersionFilter=%v", cm.name, st.sawFilter, isVF))
 				}
-				line := fmt.Sprintf("ctl %s %s %s ", b2s(isVF), b2s(auth), b2s(hit)) + strings.TrimPrefix(vulnLine(cm.name, p, a, nil), "vuln ")
+				tag, rg := "set", v.Range
+				if rg == nil {
+					tag, rg = "nil", &claircore.Range{}
+				}
+				line := fmt.Sprintf("ctl %s %s %s %s %s %s ", b2s(isVF), b2s(auth), tag, nverWords(&rg.Lower), nverWords(&rg.Upper), nverWords(&rec.Package.NormalizedVersion)) +
+					strings.TrimPrefix(vulnLine(cm.name, p, a, nil), "vuln ")
 				r.Op(line, got, true)
 				r.Count("ctl:" + cm.name + ":hit=" + b2s(hit) + ":" + got)
 				// the statement for the authoritative matchers: reported iff lower <= v < upper
